@@ -6,6 +6,9 @@ From Coq Require Import Arith List Bool Lia.
 From QV.Core Require Import OF Sums Mat Cplx.
 From QV.Model Require Import QObj HermEmbed C02_Conv.
 From QV.Proofs Require Import C02_QObjLemmas C02_Conv.
+From QV.Model Require IndexUtil.
+From QV.Proofs Require IndexUtil.
+From Coq Require Import ZArith.
 From QVGen Require Import Gen_c02_glue.
 Import ListNotations.
 
@@ -57,6 +60,52 @@ Theorem gen_skeleton_povm_index : forall self idx,
          (subscr s (attr__vecs s self) (gen_Povm__md_index2serial_index s self idx)))
       (subscr s (attr__vecs s self) idx).
 Proof. intros. split; reflexivity. Qed.
+
+(* MProcess: hs(index) dispatch (int -> hss[index]; tuple -> length check, then hss[index_serial_from_index_multi_dimensional(shape, index)]) and the
+   per-outcome conversions, each of which converts exactly hs(outcome) *)
+Theorem gen_skeleton_mprocess : forall self idx,
+  gen_MProcess_hs s self idx =
+    ite s (cmp_Eq s (call_type_1 s idx) (builtin_tuple s))
+      (ite s (cmp_NotEq s (call_len_1 s idx) (call_len_1 s (attr_shape s self))) (raise_ValueError s)
+         (subscr s (attr_hss s self) (call_index_serial_from_index_multi_dimensional_2 s (attr_shape s self) idx)))
+      (subscr s (attr_hss s self) idx) /\
+  gen_MProcess_to_choi_matrix s self idx = call_gate_to_choi_from_hs_2 s (attr_composite_system s self) (gen_MProcess_hs s self idx) /\
+  gen_MProcess_to_choi_matrix_with_dict s self idx = call_gate_to_choi_from_hs_with_dict_2 s (attr_composite_system s self) (gen_MProcess_hs s self idx) /\
+  gen_MProcess_to_choi_matrix_with_sparsity s self idx = gen_to_choi_from_hs_with_sparsity s (attr_composite_system s self) (gen_MProcess_hs s self idx) /\
+  gen_MProcess_to_kraus_matrices s self idx = call_gate_to_kraus_matrices_from_hs_2 s (attr_composite_system s self) (gen_MProcess_hs s self idx) /\
+  gen_MProcess_to_process_matrix s self idx = call_gate_to_process_matrix_from_hs_2 s (attr_composite_system s self) (gen_MProcess_hs s self idx).
+Proof. intros. repeat split; reflexivity. Qed.
+(* transported: if the three HS -> Choi functions agree (theorem C02_variants_agree + the gate_choi correspondence), the three MProcess methods agree
+   for every outcome index of every kind, because they convert the same hs(outcome) *)
+Theorem gen_mprocess_choi_variants_agree : forall self idx,
+  (forall c h, call_gate_to_choi_from_hs_2 s c h = gen_to_choi_from_hs_with_sparsity s c h) ->
+  (forall c h, call_gate_to_choi_from_hs_with_dict_2 s c h = gen_to_choi_from_hs_with_sparsity s c h) ->
+  gen_MProcess_to_choi_matrix s self idx = gen_MProcess_to_choi_matrix_with_sparsity s self idx /\
+  gen_MProcess_to_choi_matrix_with_dict s self idx = gen_MProcess_to_choi_matrix_with_sparsity s self idx.
+Proof. intros self idx H1 H2. unfold gen_MProcess_to_choi_matrix, gen_MProcess_to_choi_matrix_with_dict, gen_MProcess_to_choi_matrix_with_sparsity. cbv zeta.
+  now rewrite H1, H2. Qed.
+
+(* basis change: the guards of convert_hs / convert_vec (square HS, square dimension, equal basis dimensions and lengths -> ValueError), the representation
+   matrix U[a,b] = vdot(to_basis[a], from_basis[b]) laid out row-major over product(to_basis, from_basis), U H U^dagger resp. U v, and the object-level wrappers *)
+Theorem gen_skeleton_convert : forall h v fb tb self mode,
+  gen_convert_hs s h fb tb =
+    (let size := attr_shape s h in
+     ite s (cmp_NotEq s (subscr s size (const_int_0 s)) (subscr s size (const_int_1 s))) (raise_ValueError s)
+    (ite s (cmp_NotEq s (op_Pow s (call_int_1 s (call_np_sqrt_1 s (subscr s size (const_int_0 s)))) (const_int_2 s)) (subscr s size (const_int_0 s))) (raise_ValueError s)
+    (ite s (cmp_NotEq s (attr_dim s fb) (attr_dim s tb)) (raise_ValueError s)
+    (ite s (cmp_NotEq s (call_len_1 s fb) (call_len_1 s tb)) (raise_ValueError s)
+    (let U := meth_reshape_2 s (call_np_array_1 s (list_map_product s (fun a b => call_vdot_2 s a b) tb fb)) (op_Pow s (attr_dim s fb) (const_int_2 s)) (op_Pow s (attr_dim s fb) (const_int_2 s)) in
+     op_MatMult s (op_MatMult s U h) (attr_T s (meth_conj_0 s U))))))) /\
+  gen_convert_vec s v fb tb =
+    ite s (cmp_NotEq s (call_len_1 s fb) (call_len_1 s tb)) (raise_ValueError s)
+    (ite s (cmp_NotEq s (attr_dim s fb) (attr_dim s tb)) (raise_ValueError s)
+    (op_MatMult s (meth_reshape_2 s (call_np_array_1 s (list_map_product s (fun a b => call_mutil_vdot_2 s a b) tb fb)) (call_len_1 s fb) (call_len_1 s fb)) v)) /\
+  gen_Gate_convert_basis s self tb = gen_convert_hs s (attr_hs s self) (meth_basis_0 s (attr_composite_system s self)) tb /\
+  gen_Gate_convert_to_comp_basis s self mode =
+    gen_convert_hs s (attr_hs s self) (meth_basis_0 s (attr_composite_system s self)) (meth_comp_basis_1__mode s (attr_composite_system s self) mode) /\
+  gen_State_convert_basis s self tb = gen_convert_vec s (attr__vec s self) (meth_basis_0 s (attr_composite_system s self)) tb /\
+  gen_Povm_convert_basis s self tb = list_map s (fun x => gen_convert_vec s x (meth_basis_0 s (attr_composite_system s self)) tb) (attr_vecs s self).
+Proof. intros. repeat split; reflexivity. Qed.
 
 Theorem gen_skeleton_gate : forall c h ch e v p self,
   gen_to_choi_from_hs_with_sparsity s c h = meth_reshape_1 s (meth_dot_1 s (attr_basis_basisconjugate_T_sparse s c) (meth_flatten_0 s h)) (dim2 c) /\
@@ -128,7 +177,7 @@ Inductive val : Type := VNone | VTok | VErr | VBool (b : bool) | VNat (k : nat) 
   (* index dispatch of Povm: a POVM object is represented by its list of local outcome counts; tuples / shapes are lists of naturals;
      VView shape base = the sub-array of np.array(range(N)).reshape(..) that remains after some leading indices (row-major: its first entry is base) *)
   | VObj (nums : list nat) | VList (l : list nat) | VShape (l : list nat) | VRange (n : nat) | VArr1 (n : nat) | VView (shape : list nat) (base : nat)
-  | VVecs | VElem (k : nat) | VTy (k : nat).
+  | VVecs | VElem (k : nat) | VTy (k : nat) | VMp (shape : list nat) | VHss.
 Definition prodn (l : list nat) : nat := fold_right Nat.mul 1%nat l.
 Fixpoint rowmajor (shape idx : list nat) : nat :=
   match shape, idx with n :: ns, i :: js => (i * prodn ns + rowmajor ns js)%nat | _, _ => 0%nat end.
@@ -151,11 +200,16 @@ Definition s_reshape a sh := match a, sh with VArr1 n, VShape l => if Nat.eqb (p
 Definition s_subscr a i := match a, i with
   | VView (n :: ns) base, VNat k => if Nat.ltb k n then (match ns with [] => VNat (base + k) | _ => VView ns (base + k * prodn ns) end) else VErr
   | VVecs, VNat k => VElem k
+  | VHss, VNat k => VElem k
   | _, _ => VErr end.
 Definition s_fold (f : val -> val -> val) xs t0 := match xs with VList l => fold_left (fun t i => f t (VNat i)) l t0 | _ => VErr end.
 Definition s_num_outcomes v := match v with VObj nums => VNat (prodn nums) | _ => VErr end.      (* invariant of a product POVM: num_outcomes = product of the local counts *)
 Definition s_nums v := match v with VObj nums => VShape nums | _ => VErr end.
 Definition s_vecs v := match v with VObj _ => VVecs | _ => VErr end.
+(* MProcess: represented by its shape; index_util.index_serial_from_index_multi_dimensional (translated and proved row-major by C16) is instantiated as rowmajor *)
+Definition s_shape v := match v with VMp sh => VShape sh | _ => VErr end.
+Definition s_hss v := match v with VMp _ => VHss | _ => VErr end.
+Definition s_serial a b := match a, b with VShape sh, VList idx => VNat (rowmajor sh idx) | _, _ => VErr end.
 Definition s_any v := match v with VB2 m n P => VBool (negb (allb m (fun i => allb n (fun j => negb (P i j))))) | _ => VErr end.
 Definition s_and a b := match a, b with VBool x, VBool y => VBool (x && y) | _, _ => VErr end.
 Definition s_or a b := match a, b with VBool x, VBool y => VBool (x || y) | _, _ => VErr end.
@@ -169,8 +223,10 @@ Definition s_where c x y := match c, x, y with
   | _, _, _ => VErr end.
 Definition S : sym val :=
   {|
+     attr_T := (fun _ => VErr);
      attr__hs := (fun _ => VErr);
      attr__num_outcomes := s_num_outcomes;
+     attr__vec := (fun _ => VErr);
      attr__vecs := s_vecs;
      attr_basis_T_sparse := (fun _ => VErr);
      attr_basis_basisconjugate_T_sparse := (fun _ => VErr);
@@ -180,9 +236,11 @@ Definition S : sym val :=
      attr_dim := (fun _ => VErr);
      attr_eps_proj_physical := (fun _ => VErr);
      attr_hs := (fun _ => VErr);
+     attr_hss := s_hss;
      attr_imag := s_imag;
      attr_nums_local_outcomes := s_nums;
      attr_real := s_real;
+     attr_shape := s_shape;
      attr_vec := (fun _ => VErr);
      attr_vecs := (fun _ => VErr);
      builtin_tuple := (VTy 0);
@@ -193,14 +251,22 @@ Definition S : sym val :=
      call_convert_var_to_vecs_3 := (fun _ _ _ => VErr);
      call_convert_vec_to_var_3 := (fun _ _ _ => VErr);
      call_convert_vecs_to_var_3 := (fun _ _ _ => VErr);
+     call_gate_to_choi_from_hs_2 := (fun _ _ => VErr);
+     call_gate_to_choi_from_hs_with_dict_2 := (fun _ _ => VErr);
+     call_gate_to_kraus_matrices_from_hs_2 := (fun _ _ => VErr);
+     call_gate_to_process_matrix_from_hs_2 := (fun _ _ => VErr);
+     call_index_serial_from_index_multi_dimensional_2 := s_serial;
+     call_int_1 := (fun _ => VErr);
      call_len_1 := s_len;
      call_max_2 := s_max;
+     call_mutil_vdot_2 := (fun _ _ => VErr);
      call_np_abs_1 := s_abs;
      call_np_any_1 := s_any;
      call_np_array_1 := s_nparray;
      call_np_max_1 := s_npmax;
      call_np_real_1 := s_real;
      call_np_size_1 := s_size;
+     call_np_sqrt_1 := (fun _ => VErr);
      call_np_where_3 := s_where;
      call_range_1 := s_range;
      call_to_choi_from_hs_2 := (fun _ _ => VErr);
@@ -208,6 +274,7 @@ Definition S : sym val :=
      call_to_kraus_matrices_from_hs_3 := (fun _ _ _ => VErr);
      call_to_process_matrix_from_hs_2 := (fun _ _ => VErr);
      call_type_1 := s_type;
+     call_vdot_2 := (fun _ _ => VErr);
      cmp_Eq := s_eq;
      cmp_Gt := s_gt;
      cmp_Is := s_is;
@@ -218,19 +285,26 @@ Definition S : sym val :=
      const_float_0_0 := (VF (c0 F));
      const_float_1_0 := (VF (c1 F));
      const_int_0 := (VNat 0);
+     const_int_1 := VErr;
      const_int_2 := (VNat 2);
      ite := s_ite;
      list_fold := s_fold;
      list_map := (fun _ _ => VErr);
+     list_map_product := (fun _ _ _ => VErr);
      meth_astype_1 := (fun x _ => x);
+     meth_basis_0 := (fun _ => VErr);
+     meth_comp_basis_1__mode := (fun _ _ => VErr);
+     meth_conj_0 := (fun _ => VErr);
      meth_dot_1 := (fun _ _ => VErr);
      meth_flatten_0 := (fun _ => VErr);
      meth_reshape_1 := s_reshape;
+     meth_reshape_2 := (fun _ _ _ => VErr);
      meth_toarray_0 := (fun _ => VErr);
      mod_np_float64 := VTok;
      mod_sparse_csc_matrix := VTok;
      mod_sparse_csr_matrix := VTok;
      op_And := s_and;
+     op_MatMult := (fun _ _ => VErr);
      op_Mult := s_mult;
      op_Or := s_or;
      op_Pow := (fun _ _ => VErr);
@@ -312,6 +386,33 @@ Proof. intros nums. split.
     apply Nat.eqb_neq in Hl. rewrite Hl. reflexivity.
   - intros k. reflexivity. Qed.
 
+(* the instantiation of index_util.index_serial_from_index_multi_dimensional used above (rowmajor) IS C16's model of that function
+   (Model/IndexUtil.serial_from_multi, which C16 regenerates from index_util.py and proves equal on every run) on natural-number arguments *)
+Lemma prodn_prodz l : Z.of_nat (prodn l) = QV.Proofs.IndexUtil.prodz (map Z.of_nat l).
+Proof. induction l as [|n t IH]; [reflexivity|]. cbn [prodn fold_right map QV.Proofs.IndexUtil.prodz]. fold (prodn t). rewrite Nat2Z.inj_mul, IH. reflexivity. Qed.
+Lemma rowmajor_row_major shape : forall idx, Z.of_nat (rowmajor shape idx) = QV.Proofs.IndexUtil.row_major (map Z.of_nat shape) (map Z.of_nat idx).
+Proof. induction shape as [|n t IH]; intros [|x xs]; try reflexivity. cbn [rowmajor map QV.Proofs.IndexUtil.row_major].
+  rewrite Nat2Z.inj_add, Nat2Z.inj_mul, prodn_prodz, IH. reflexivity. Qed.
+Theorem rowmajor_is_index_util_model : forall shape idx, length shape = length idx ->
+  QV.Model.IndexUtil.serial_from_multi (map Z.of_nat shape) (map Z.of_nat idx) = Some (Z.of_nat (rowmajor shape idx)).
+Proof. intros shape idx Hl. rewrite QV.Proofs.IndexUtil.serial_from_multi_row_major by (now rewrite !map_length).
+  now rewrite rowmajor_row_major. Qed.
+
+(* MProcess.hs: a tuple of the right length selects hss[row-major serial index], a tuple of another length raises ValueError, an integer selects hss[k] *)
+Theorem gen_mprocess_hs_dispatch : forall shape,
+  (forall idx, length idx = length shape -> gen_MProcess_hs S (VMp shape) (VList idx) = VElem (rowmajor shape idx)) /\
+  (forall idx, length idx <> length shape -> gen_MProcess_hs S (VMp shape) (VList idx) = VErr) /\
+  (forall k, gen_MProcess_hs S (VMp shape) (VNat k) = VElem k).
+Proof. intros shape. split; [|split].
+  - intros idx Hl. unfold gen_MProcess_hs.
+    cbn [S ite cmp_Eq call_type_1 builtin_tuple cmp_NotEq call_len_1 attr_shape raise_ValueError subscr attr_hss call_index_serial_from_index_multi_dimensional_2
+         s_ite s_eq s_type s_ne s_len s_shape s_hss s_serial s_subscr Nat.eqb].
+    rewrite Hl, Nat.eqb_refl. reflexivity.
+  - intros idx Hl. unfold gen_MProcess_hs.
+    cbn [S ite cmp_Eq call_type_1 builtin_tuple cmp_NotEq call_len_1 attr_shape raise_ValueError s_ite s_eq s_type s_ne s_len s_shape Nat.eqb].
+    apply Nat.eqb_neq in Hl. rewrite Hl. reflexivity.
+  - intros k. reflexivity. Qed.
+
 (* eps_truncate_imaginary_part = None: Settings.get_atol() is used for BOTH thresholds *)
 Theorem gen_truncate_hs_default_eps : forall m n (H : cmat F),
   gen_truncate_hs S (VC m n H) VNone (VBool true) = gen_truncate_hs S (VC m n H) (VF atol) (VBool true).
@@ -322,12 +423,17 @@ Print Assumptions gen_skeleton_truncate.
 Print Assumptions gen_skeleton_state.
 Print Assumptions gen_skeleton_povm.
 Print Assumptions gen_skeleton_povm_index.
+Print Assumptions gen_skeleton_mprocess.
+Print Assumptions gen_mprocess_choi_variants_agree.
+Print Assumptions gen_skeleton_convert.
 Print Assumptions gen_skeleton_gate.
 Print Assumptions gen_hs_choi_hs.
 Print Assumptions gen_gate_var_round_trip.
 Print Assumptions gen_state_var_round_trip.
 Print Assumptions gen_povm_var_round_trip.
 Print Assumptions gen_truncate_hs_is_model.
-Print Assumptions gen_truncate_hs_default_eps.
 Print Assumptions gen_povm_vec_tuple_row_major.
 Print Assumptions gen_povm_vec_other_indices.
+Print Assumptions rowmajor_is_index_util_model.
+Print Assumptions gen_mprocess_hs_dispatch.
+Print Assumptions gen_truncate_hs_default_eps.
